@@ -211,6 +211,13 @@ let rec parse_sel (t : string) (i : int) : sel * int =
   | 'M' -> (SMatch, i + 1)
   | 'E' -> (SEdge, i + 1)
   | 'A' -> let (k, j) = parse_sel t (i + 2) in (SAll k, j + 1)
+  | 'G' ->
+    let c1 = String.index_from t i ',' in
+    let c2 = String.index_from t (c1 + 1) ',' in
+    let a = int_of_string (String.sub t (i + 2) (c1 - i - 2)) in
+    let b = int_of_string (String.sub t (c1 + 1) (c2 - c1 - 1)) in
+    let (k, j) = parse_sel t (c2 + 1) in
+    (SRange (z_of_int a, z_of_int b, k), j + 1)
   | 'I' | 'R' as c ->
     let comma = String.index_from t i ',' in
     let num = String.sub t (i + 2) (comma - i - 2) in
@@ -259,13 +266,63 @@ let mk_squirks (on : string list) : squirks =
   { sq_edge_panics = List.mem "sep" on; sq_exhaust_unwrap = List.mem "sxu" on;
     sq_union_nodedup = List.mem "snd" on }
 
+module Dmio_str = struct
+  let ascii_of_hex (h : string) : string =
+    String.init (String.length h / 2) (fun i -> Char.chr (int_of_string ("0x" ^ String.sub h (2 * i) 2)))
+end
+
+let path_text (p : n list list) : string =
+  if p = [] then "." else String.concat "" (List.map (fun s -> "/" ^ hex_of_bytes s) p)
+
+(* the node a walk shows its callback at a path: children by key / decimal index, a child that is a
+   link is loaded (once) before it is walked *)
+let rec walk_at st (v : dm) (p : string list) : dm option =
+  match p with
+  | [] -> Some v
+  | seg :: r ->
+    let child =
+      match v with
+      | DMap m -> List.assoc_opt (bytes_of_hex seg) m
+      | DList l ->
+        (match int_of_string_opt (Dmio_str.ascii_of_hex seg) with
+         | Some i when i >= 0 && i < List.length l -> Some (List.nth l i)
+         | _ -> None)
+      | _ -> None in
+    (match child with
+     | Some (DLink c) -> (match List.assoc_opt c st with Some b -> walk_at st b r | None -> None)
+     | Some x -> walk_at st x r
+     | None -> None)
+
+(* "only matcher positions are decided": can a Matcher be the active selector after exactly n explore
+   steps?  Over-approximation by the selector's syntax alone (node shapes, interests and the walk's
+   machinery ignored); an edge fires - is replaced by the recursion's sequence - when it is reached by a
+   step and the depth limit still allows it (limit.depth >= 2, or no limit). *)
+let rec can_match (seq : (sel * z option) option) (s : sel) (n : int) : bool =
+  let step x = n > 0 && after_step seq x (n - 1) in
+  match s with
+  | SMatch -> n = 0
+  | SEdge -> false
+  | SAll x | SIndex (_, x) | SRange (_, _, x) -> step x
+  | SFields fs -> List.exists (fun (_, x) -> step x) fs
+  | SUnion ms -> List.exists (fun m -> can_match seq m n) ms
+  | SRec (sq, cur, lim) -> can_match (Some (sq, lim)) cur n
+and after_step seq (x : sel) (n : int) : bool =
+  match x with
+  | SEdge ->
+    (match seq with
+     | None -> false
+     | Some (sq, None) -> can_match (Some (sq, None)) sq n
+     | Some (sq, Some d) -> int_of_z d >= 2 && can_match (Some (sq, Some (z_of_int (int_of_z d - 1)))) sq n)
+  | SUnion ms -> List.exists (fun m -> after_step seq m n) ms
+  | _ -> can_match seq x n
+
 let do_wt id blocks root selt fn obs =
   let st = parse_blocks blocks in
   let root = dm_of_string root in
   let (s, _) = parse_sel selt 0 in
   let model_obs =
-    (match wt (mk_squirks !current) (wfn_of fn) st fuel s root [] with
-     | Ok (v, log) -> "ok:" ^ dump v ^ "#cb:" ^ String.concat "," (List.map dump log)
+    (match wt (mk_squirks !current) (wfn_of fn) st fuel s [] root [] with
+     | Ok (v, log) -> "ok:" ^ dump v ^ "#cb:" ^ String.concat "," (List.map (fun (p, x) -> path_text p ^ "=" ^ dump x) log)
      | Err e -> err_name e) ^ "||pure:1||new:0" in
   let verdict =
     if obs = "builderr" || obs = "selerr" then "skip" else
@@ -279,7 +336,22 @@ let do_wt id blocks root selt fn obs =
       if outcome = "panic" then add "walk_panic";
       if starts_with "ok:" outcome && not (String.contains outcome '!')
          && not (walk_rel (wfn_of fn) st root (dm_of_string (after "ok:" outcome))) then add "walk_result_not_update";
-      if fn = "id" && starts_with "ok:" outcome then begin
+      (* every call of the callback was shown the node that sits at the reported path *)
+      if starts_with "ok:" outcome && cb_of o <> "" then
+        List.iter (fun e ->
+            match String.index_opt e '=' with
+            | None -> add "walk_callback_malformed"
+            | Some i ->
+              let pt = String.sub e 0 i and nd = String.sub e (i + 1) (String.length e - i - 1) in
+              let segs = if pt = "." then [] else List.tl (String.split_on_char '/' pt) in
+              if not (can_match None s (List.length segs)) && not (List.mem "walk_callback_off_matcher" !fails)
+              then add "walk_callback_off_matcher";
+              (match walk_at st root segs with
+               | Some x when dump x = nd -> ()
+               | _ -> if not (List.mem "walk_callback_not_at_path" !fails) then add "walk_callback_not_at_path"))
+          (String.split_on_char ',' (cb_of o));
+      if starts_with "ok:" outcome && String.contains outcome '!' then add "walk_result_nil_node";
+      if fn = "id" && starts_with "ok:" outcome && not (String.contains outcome '!') then begin
         let r = dm_of_string (after "ok:" outcome) in
         let full v = erase (xexpand xfuel st v) in
         if not (dm_eqb (full r) (full root)) then add "walk_identity_differs"
